@@ -375,10 +375,23 @@ def cast_scalar(x, dt):
     if dt == "int":
         if have == "bool":
             return T(_to_int(e))
-        return T(z3.ToInt(e))  # only used after floor/clip: value is integral there
+        return T(real_to_int(e))
     if dt == "bool":
         return T(as_bool(e))
     raise Undecided(f"cast to {dt}")
+
+
+def real_to_int(e):
+    """ToInt pushed through ite and cancelled against ToReal (floor/clip results are integral)"""
+    if z3.is_int(e):
+        return e
+    if z3.is_app_of(e, z3.Z3_OP_TO_REAL):
+        return e.arg(0)
+    if z3.is_app_of(e, z3.Z3_OP_ITE):
+        return z3.If(e.arg(0), real_to_int(e.arg(1)), real_to_int(e.arg(2)))
+    if z3.is_rational_value(e) and e.denominator_as_long() == 1:
+        return z3.IntVal(e.numerator_as_long())
+    return z3.ToInt(e)
 
 
 class DType:
